@@ -526,20 +526,22 @@ IsolatedModuloUnversioned ==
 
 \* every difference between the code's prediction and the ideal is explained
 \* by at least one named deviation (attribution used by the S->I binding)
-Blame(v, qn, qt) ==
-  LET c == ConcreteAnswer(store, v, qn, qt, Dev)
-      changes(X) == ConcreteAnswer(store, v, qn, qt, Dev \ X) # c
-      singles == {d \in Dev : changes({d})}
-      pairs == UNION {X \in SUBSET Dev : Cardinality(X) = 2 /\ changes(X)}
-  IN IF c \subseteq Admissible(v, qn, qt) THEN {}
-     ELSE IF singles # {} THEN singles
+\* which deviations explain the (non-admissible) answer `a` of the transcription:
+\* those without which the transcription would not give it
+BlameOf(v, qn, qt, a) ==
+  LET gone(X) == a \notin ConcreteAnswer(store, v, qn, qt, Dev \ X)
+      singles == {d \in Dev : gone({d})}
+      pairs == UNION {X \in SUBSET Dev : Cardinality(X) = 2 /\ gone(X)}
+  IN IF singles # {} THEN singles
      ELSE pairs      \* two deviations mask each other (e.g. a node that should not
                      \* be visible AND the wildcard fallback it prevents)
+Blame(v, qn, qt) ==
+  UNION {BlameOf(v, qn, qt, a) : a \in ConcreteAnswer(store, v, qn, qt, Dev) \ Admissible(v, qn, qt)}
 DeviationsExplain ==
   phase = "live" =>
     \A v \in Published : \A q \in Queries :
-      (~(ConcreteAnswer(store, v, q[1], q[2], Dev) \subseteq Admissible(v, q[1], q[2])))
-        => Blame(v, q[1], q[2]) # {}
+      \A a \in ConcreteAnswer(store, v, q[1], q[2], Dev) \ Admissible(v, q[1], q[2]) :
+         BlameOf(v, q[1], q[2], a) # {}
 
 TypeOK ==
   /\ current \in Versions /\ wlock \in Writers \cup {"none"}
